@@ -180,7 +180,8 @@ class UnitsEngine(Engine):
                          ('badexpr', 0.0 if cfg.get('fault_free') else 0.5)])
         if k == 'badexpr':
             bad = r.choice(['Gpa', 'angstom', '(m/s', 'm/s)', 'kg*(m/(s*Gpa))', 'eV/(angstrom^3', '((m))/((s)*(furlong))', 'm**2',
-                            '(((((m/(s*(kg/(mol*(K/(Gpa)))))))))', 'nm $ s', 'kcal/mole', ')m('])
+                            '(((((m/(s*(kg/(mol*(K/(Gpa)))))))))', 'nm $ s', 'kcal/mole', ')m(',
+                            'eV/', 'nm^', 'kg*m/s^', 'GPa *', 'eV/()', 'J/(mol*)', 'eV/(angstrom^3 ', '((m/s) ', '(kg*mm'])
             return {'op': 'badexpr', 'expr': bad, 'via': r.choice(['parse', 'set', 'get', 'literal']), 'reps': r.choice([1, 2, 2, 3, 8, 20]),
                     'then': r.choice(['(kg * (m / s) ^ 2) / (mol * K)', 'eV/angstrom^3', 'GPa', '((nm))'])}
         if k == 'reset':
@@ -467,6 +468,18 @@ class UnitsEngine(Engine):
         ctx.fault('refused_expression')
         if first and first[0] == 'raised':
             ctx.probe('refused_expression_raised')
+        # one expression, one verdict: what parse() refuses the conversion functions refuse, and what it evaluates they use
+        okp, fp = ctx.sut(uc.parse, expr)
+        oks, fs = ctx.sut(uc.set_in_units, 1.0, expr)
+        okg, fg = ctx.sut(uc.get_in_units, 1.0, expr)
+        if not (okp == oks == okg):
+            raise Violation('C09.K2', {'what': 'parse, set_in_units and get_in_units disagree on whether an expression can be evaluated', 'expr': expr,
+                                       'parse': okp, 'set_in_units': oks, 'get_in_units': okg}, klass='badexpr/verdicts-differ')
+        if okp:
+            fp, fs, fg = float(fp), float(fs), float(fg)
+            if fp != 0 and np.isfinite(fp) and not (abs(fs - fp) <= 1e-12 * abs(fp) and abs(fg * fp - 1.0) <= 1e-12):
+                raise Violation('C09.K2', {'what': 'an expression evaluates differently through parse and through the conversion functions',
+                                           'expr': expr, 'parse': fp, 'set_in_units(1)': fs, 'get_in_units(1)': fg}, klass='badexpr/values-differ')
         self._parse(ctx, st, {'expr': op['then'], 'tag': 'after-refusal'})
         ctx.ev('op', 'badexpr', {'expr': expr, 'via': via, 'reps': op['reps']}, {'first': list(first) if first else None})
         return via
@@ -563,7 +576,13 @@ class UnitsEngine(Engine):
         elif what == 'seed_with_names':
             ok, res = ctx.sut(uc.reset_units, 7, length='nm')
         else:
-            ok, res = ctx.sut(uc.reset_units, length='furlong')
+            # an unknown name for any one of the five quantities, next to valid ones
+            st['nrefused'] = st.get('nrefused', 0) + 1
+            q = ('length', 'mass', 'time', 'energy', 'charge')[st['nrefused'] % 5]
+            kw = {'length': 'nm', 'mass': 'amu', 'charge': 'e'}
+            kw.pop(q, None)
+            kw[q] = 'furlong'
+            ok, res = ctx.sut(uc.reset_units, **kw)
         ctx.fault('refused_reset')
         ctx.ev('op', 'refused', {'what': what}, {'raised': (not ok) and type(res).__name__})
         if not ok:
